@@ -467,6 +467,20 @@ func c09Run(w *run.Worker) {
 		enum(4, full, false)
 	} else {
 		enum(4, small, false)
+		// all 4-script sets of VALID scripts with <=2 uses of distinct existing targets (diamonds, long chains, cycles of every length)
+		var validOnly []c09Var
+		for _, v := range full {
+			ok := v.Kind == 0
+			for _, u := range v.Uses {
+				if u == "missing" {
+					ok = false
+				}
+			}
+			if ok && !(len(v.Uses) == 2 && v.Uses[0] == v.Uses[1]) {
+				validOnly = append(validOnly, v)
+			}
+		}
+		enum(4, validOnly, false)
 	}
 	// conformance of the seam: the loader with Go's own map order gives the same verdicts
 	idx3 := 0
@@ -527,7 +541,7 @@ func init() {
 		ID:    "C09",
 		Level: "model_checking",
 		Rule: "script sets over names {a,b,c,d}: each script is valid with an ordered list of <=2 use targets in {a,b,c,d,missing} (31 variants), unparsable, check-failing, or check-failing with a multi-entry error chain; ALL sets of 1..3 scripts (34+34^2+34^3) under ALL parse/check orders x ALL link orders of the loader's two map iterations (overlay rewrite of the range statements), " +
-			"4-script sets with <=1 use each (quick) / all 34^4 (thorough) under all 24 link orders; every (set, order) is a fresh ParseScript; oracle: verdict map == graph-reachability reference (hence equal across orders), every use call of an accepted script bound to the accepted script of that name, " +
+			"4-script sets with <=1 use each and all 4-sets of valid scripts with <=2 distinct existing targets (quick) / all 34^4 (thorough) under all 24 link orders; every (set, order) is a fresh ParseScript; oracle: verdict map == graph-reachability reference (hence equal across orders), every use call of an accepted script bound to the accepted script of that name, " +
 			"a dependency-rejected script's position chain = root cause (callee's own error, use of a missing name, or cycle-closing call) followed by the use call sites outward, every entry inside the file it names; plus the unmodified map order 8x on a third of the 3-script sets (conformance of the seam)",
 		Assumptions: []string{"the loader's only nondeterminism is the iteration order of its two script maps (checked by grep: pkg/engine has no other map range, goroutine or clock)"},
 		Run:            c09Run,
